@@ -33,7 +33,7 @@ def build(tier, seed):
     for (R, C), pf, ps in itertools.product(shapes, range(3), range(3)):
         obs.append(Ob(
             oid="O1.page_borders.%dx%d.%s_%s" % (R, C, PLACES[pf], PLACES[ps]),
-            sig="first: bool, last: bool, has_hdr: bool, fn: int, src: int, " + ("u: bool" if quick else "ut: bool, ub: bool"),
+            sig="first: bool, last: bool, has_hdr: bool, nh: bool, fn: int, src: int, " + ("u: bool" if quick else "ut: bool, ub: bool"),
             pre=["0 <= fn <= 2", "0 <= src <= 2"], header=HDR7, timeout=T,
             body=("\n    ut = ub = u" if quick else "") + r'''
     R, C, pf, ps = %d, %d, %r, %r
@@ -43,7 +43,8 @@ def build(tier, seed):
              rtf_footnote=None if fn == 0 else NS(text="f", as_table=(fn == 1)),
              rtf_source=None if src == 0 else NS(text="s", as_table=(src == 1)))
     df = FakeFrame({"c%%d" %% j: ["x"] * R for j in range(C)})
-    page = NS(table_attrs=body, data=df, is_first_page=first, is_last_page=last, component_borders={})
+    page = NS(table_attrs=body, data=df, is_first_page=first, is_last_page=last, component_borders={}, row_start=0,
+              needs_header=(True if first else nh), page_number=1 if first else 2)
     attrs = PageFeatureProcessor()._apply_pagination_borders(doc, page)
     top, bot = grid(attrs.border_top, R, C), grid(attrs.border_bottom, R, C)
     user_top, user_bot = (UT if ut else ""), (UB if ub else "")
@@ -75,7 +76,7 @@ def build(tier, seed):
                    "rtflite.pagination.processor:PageFeatureProcessor._apply_border_to_cell",
                    "rtflite.attributes:BroadcastValue.update_cell", "rtflite.attributes:BroadcastValue.to_list"],
             stubs=["page frame -> FakeFrame (height, width)", "document/page -> namespaces around a REAL RTFBody"],
-            bounds="%dx%d page; page_footnote=%s page_source=%s; first/last page, column header presence, footnote and source "
+            bounds="%dx%d page; page_footnote=%s page_source=%s; first/last page, column header presence, header repetition on later pages, footnote and source "
                    "in absent|table|paragraph, user border_top/border_bottom empty or set%s: all symbolic; six distinct style "
                    "tokens" % (R, C, PLACES[pf], PLACES[ps], " (together)" if quick else " (independently)"),
             what="first data row top = rtf_page.border_first (first page, no column header) else rtf_body.border_first; the last "
